@@ -252,11 +252,35 @@ def run(ck):
         ops, flags = [], []
         inp = {"kind": "history", "dyadic": dyadic, "scales": [str(x) for x in hs], "offsets": [str(x) for x in ho], "cols": cols, "ops": []}
         try:
-            for _ in range(ck.rng.randrange(1, 13)):
+            steps = ck.rng.randrange(1, 13)
+            final_near = ck.rng.random() < 0.3
+            for si in range(steps):
                 k = ck.rng.choice(["hs", "ho", "HS", "HO", "al", "al", "ar", "cs", "cs"])
-                if k in ("hs", "ho"):
+                if final_near and si == steps - 1:
+                    # the last step re-binds the header's scales or offsets to values *nearly* equal to the current ones
+                    # (relative difference below 1e-5): the record keeps the old scaling, so the writer must rescale
+                    k = ck.rng.choice(["HS", "HO"])
+                    if k == "HO" and dyadic and not any(abs(c) >= 10 ** 5 for c in ref.ho):
+                        k = "HS"        # a tiny offset change is not exact in float64 for large coordinates: decimal stream only
+                    if k == "HS":
+                        vec = [c * Fraction(2 ** 18 + 1, 2 ** 18) for c in ref.hs]
+                    else:
+                        vec = [c + (3 if abs(c) >= 10 ** 5 else (0 if dyadic else Fraction(1, 2 ** 30))) for c in ref.ho]
+                    op = (k, vec if dyadic else [fr(float(v)) for v in vec])
+                    ck.count("final_near_equal_rebind")
+                elif k in ("hs", "ho"):
                     a = ck.rng.randrange(3)
                     v = gen_scal(ck.rng, dyadic)[0 if k == "hs" else 1][a]
+                    if ck.rng.random() < 0.3:
+                        # a scaling that is *nearly* the current one (relative difference below 1e-5): still a different
+                        # scaling, the writer must rescale
+                        cur = (ref.hs if k == "hs" else ref.ho)[a]
+                        if k == "hs":
+                            v = cur * Fraction(2 ** 18 + 1, 2 ** 18)
+                        else:
+                            v = cur + (3 if abs(cur) >= 10 ** 5 else (0 if dyadic else Fraction(1, 2 ** 30)))
+                        v = v if dyadic else fr(float(v))
+                        ck.count("near_equal_header_edit")
                     op = (k, a, v, ck.rng.random() < 0.5)
                 elif k in ("HS", "HO"):
                     op = (k, gen_scal(ck.rng, dyadic)[0 if k == "HS" else 1])
